@@ -482,3 +482,19 @@ theorem settled_grows (s : State) (op : Op) : ∃ l, (step s op).1.settled = s.s
         simp [executeBatch, cancelBatches]
 
 end FxVerif.Proofs.C05
+
+namespace FxVerif.Proofs.C05
+open List
+
+theorem nodup_map_inj {α β : Type} (f : α → β) : ∀ (l : List α), (l.map f).Nodup → ∀ a ∈ l, ∀ b ∈ l, f a = f b → a = b
+  | [], _, _, ha, _, _, _ => by cases ha
+  | x :: xs, hnd, a, ha, b, hb, hab => by
+    simp only [map_cons, nodup_cons, mem_map, not_exists, not_and] at hnd
+    simp only [mem_cons] at ha hb
+    rcases ha with rfl | ha <;> rcases hb with rfl | hb
+    · rfl
+    · exact absurd hab.symm (hnd.1 b hb)
+    · exact absurd hab (hnd.1 a ha)
+    · exact nodup_map_inj f xs hnd.2 a ha b hb hab
+
+end FxVerif.Proofs.C05
